@@ -34,6 +34,7 @@ struct cbsrc {
 	size_t k; uint64_t rng;
 	long nread, nskip, nseek;
 	const char *fkind; long fidx;
+	unsigned char *cur;
 };
 static struct cbsrc S;
 
@@ -61,7 +62,11 @@ static ssize_t cb_read(struct archive *a, void *d, const void **buf)
 	if (fault_here(c, "err", n)) { archive_set_error(a, EIO, "scripted read error"); return -1; }
 	if (fault_here(c, "eof", n)) return 0;
 	size_t k = next_block(c);
-	*buf = c->p + c->pos; c->pos += k;
+	/* every block in its own exact-size allocation: a read past the end of the block that was
+	 * handed out (or of a block already replaced) is an ASan report */
+	free(c->cur); c->cur = malloc(k ? k : 1);
+	memcpy(c->cur, c->p + c->pos, k);
+	*buf = c->cur; c->pos += k;
 	return (ssize_t)k;
 }
 static int64_t cb_skip(struct archive *a, void *d, int64_t req)
@@ -264,6 +269,7 @@ static void do_run(char **w, int n)
 	printf("|F %s%s", vh_st(final), after_end ? " ENTRY-AFTER-END" : "");
 	int cr = archive_read_close(a), fr = archive_read_free(a);
 	printf(" close=%s free=%s", vh_st(cr), vh_st(fr));
+	free(S.cur); S.cur = NULL;
 	if (fp) fclose(fp);
 	if (fd >= 0) close(fd);
 	if (feeder > 0) { int st; waitpid(feeder, &st, 0); }
